@@ -15,6 +15,7 @@ EXTRA_TRUSTED = [
 
 def run(ctx):
     from d42 import substitute
+    from d42.substitution.errors import SubstitutionError
     n = ctx.scale(200, 4000)
     depth = ctx.scale(3, 5)
     cases = ssuite.make_cases(ctx, n, depth, plain_only=False, zoo_rate=0.5)
@@ -167,6 +168,33 @@ def run(ctx):
                     rp = c.replay_dict()
                     rp.update(observed="second substitution: " + why, expected="an equal schema")
                     ctx.violation("substitution is not idempotent", rp)
+        # chains (theorems subst_chain_only_substerr / subst_chain_idempotent_at_end): a second plain value
+        # substituted into the RESULT ends in a schema or in SubstitutionError, and is idempotent there too
+        if plain and isinstance(v, (list, dict)) and ctx.rng.random() < 0.25:
+            from props import c05
+            for origin2, v2 in c05.chain_values(ctx, c)[1:4]:
+                dist["chain:tried"] = dist.get("chain:tried", 0) + 1
+                rp2 = {"kind": "input", "schema": "substitute(%s, %s)" % (c.ssrc, c.vsrc()), "value": gen.vsrc(v2),
+                       "origin": "chain-" + origin2}
+                try:
+                    r2 = substitute(c.result, v2)
+                except SubstitutionError:
+                    dist["chain:subst"] = dist.get("chain:subst", 0) + 1
+                    continue
+                except Exception as e:  # noqa
+                    rp2.update(observed=f"(S % v) % v2 raised {type(e).__name__}: {e}", expected="a schema or SubstitutionError")
+                    ctx.violation(f"a chained substitution raised {type(e).__name__}", rp2)
+                    continue
+                dist["chain:ok"] = dist.get("chain:ok", 0) + 1
+                try:
+                    r3 = substitute(r2, v2)
+                    ok3 = (r3 == r2)
+                    why3 = "" if ok3 else "different schema"
+                except Exception as e:  # noqa
+                    ok3, why3 = False, f"{type(e).__name__}: {e}"
+                if not ok3 and not (pyspec.has_nan(v2) and ctx.known_finding("F10", rp2["schema"])):
+                    rp2.update(observed="((S % v) % v2) % v2: " + why3, expected="equal to (S % v) % v2")
+                    ctx.violation("substitution is not idempotent at the end of a chain", rp2)
         if len(samples) < 4 and c.origin in ("zoo", "placeholder"):
             samples.append({"schema": c.ssrc, "value": c.vsrc(), "outcome": c.outcome})
     for c in ssuite.bad_results(cases)[:5]:
